@@ -4,6 +4,7 @@ import (
 	"bytes"
 	"context"
 	"fmt"
+	"hash/fnv"
 	"os"
 	"os/exec"
 	"path/filepath"
@@ -19,6 +20,7 @@ type SolveResult struct {
 	Raw     string
 	Tried   []string
 	Confirm string // second solver agreement (thorough)
+	Reduced bool   // model comes from the query without quantified background (candidate only)
 }
 
 type solverSpec struct {
@@ -34,11 +36,11 @@ var solvers = []solverSpec{
 	{"z3", func(f string, t int) []string { return []string{"z3", fmt.Sprintf("-T:%d", t), f} }},
 }
 
-func runSolver(sv solverSpec, file string, timeoutS int) (status, out string, secs float64) {
-	ctx, cancel := context.WithTimeout(context.Background(), time.Duration(timeoutS+2)*time.Second)
+func runSolver(ctx context.Context, sv solverSpec, file string, timeoutS int) (status, out string, secs float64) {
+	cctx, cancel := context.WithTimeout(ctx, time.Duration(timeoutS+2)*time.Second)
 	defer cancel()
 	a := sv.args(file, timeoutS)
-	cmd := exec.CommandContext(ctx, a[0], a[1:]...)
+	cmd := exec.CommandContext(cctx, a[0], a[1:]...)
 	var buf bytes.Buffer
 	cmd.Stdout = &buf
 	cmd.Stderr = &buf
@@ -53,7 +55,7 @@ func runSolver(sv solverSpec, file string, timeoutS int) (status, out string, se
 	case "timeout":
 		status = "timeout"
 	default:
-		if ctx.Err() != nil {
+		if cctx.Err() != nil {
 			status = "timeout"
 		} else if strings.Contains(out, "timeout") || strings.Contains(out, "interrupted") {
 			status = "timeout"
@@ -64,7 +66,50 @@ func runSolver(sv solverSpec, file string, timeoutS int) (status, out string, se
 	return
 }
 
-// Solve discharges one obligation: solvers are tried in order until one is decisive.
+type raceResult struct {
+	solver, status, out string
+	secs                float64
+}
+
+// race runs all solvers concurrently on one file; the first decisive answer (sat/unsat) wins.
+func race(file string, timeoutS int) (win raceResult, tried []string) {
+	ctx, cancel := context.WithCancel(context.Background())
+	defer cancel()
+	ch := make(chan raceResult, len(solvers))
+	for _, sv := range solvers {
+		sv := sv
+		go func() {
+			st, out, secs := runSolver(ctx, sv, file, timeoutS)
+			ch <- raceResult{sv.name, st, out, secs}
+		}()
+	}
+	win = raceResult{status: "unknown"}
+	for i := 0; i < len(solvers); i++ {
+		r := <-ch
+		tried = append(tried, r.solver+":"+r.status)
+		if r.status == "unsat" || r.status == "sat" {
+			win = r
+			cancel()
+			// drain in background
+			go func(n int) {
+				for j := 0; j < n; j++ {
+					<-ch
+				}
+			}(len(solvers) - i - 1)
+			return
+		}
+		if r.status == "timeout" && win.status == "unknown" {
+			win.status = "timeout"
+		}
+		if r.status == "error" {
+			win.out += r.solver + ": " + truncate(r.out, 300) + "\n"
+		}
+	}
+	return
+}
+
+// Solve discharges one obligation. If no solver proves it, the query is retried with the quantified
+// background dropped: a model of that weaker query is a candidate counterexample (to be replayed).
 func Solve(o *Obligation, workDir string, timeoutS int, confirm bool) *SolveResult {
 	q := o.ctx.Query(o)
 	fname := filepath.Join(workDir, sanitizeFile(o.Name)+".smt2")
@@ -73,24 +118,48 @@ func Solve(o *Obligation, workDir string, timeoutS int, confirm bool) *SolveResu
 	}
 	res := &SolveResult{Status: "unknown"}
 	t0 := time.Now()
-	for _, sv := range solvers {
-		st, out, _ := runSolver(sv, fname, timeoutS)
-		res.Tried = append(res.Tried, sv.name+":"+st)
-		if st == "unsat" || st == "sat" {
-			res.Status = st
-			res.Solver = sv.name
-			res.Raw = out
-			if st == "sat" {
-				res.Model = parseValues(out, o)
+	// 1. reduced query (quantified background dropped): unsat there is unsat of the full query
+	rq := dropQuantified(q)
+	var redSat *raceResult
+	if rq != q && o.Family != "VACUITY" {
+		rname := filepath.Join(workDir, sanitizeFile(o.Name)+".reduced.smt2")
+		if os.WriteFile(rname, []byte(rq), 0o644) == nil {
+			w2, t2 := race(rname, timeoutS)
+			for _, t := range t2 {
+				res.Tried = append(res.Tried, "reduced/"+t)
 			}
-			break
+			if w2.status == "unsat" {
+				res.Status = "unsat"
+				res.Solver = w2.solver + "(no-quantifiers)"
+				res.Seconds = time.Since(t0).Seconds()
+				if !keepQueries {
+					os.Remove(rname)
+					os.Remove(fname)
+				}
+				return res
+			}
+			if w2.status == "sat" {
+				redSat = &w2
+			} else if !keepQueries {
+				os.Remove(rname)
+			}
 		}
-		if st == "error" {
-			res.Raw += sv.name + ": " + truncate(out, 400) + "\n"
-		}
-		if st == "timeout" && res.Status == "unknown" {
-			res.Status = "timeout"
-		}
+	}
+	// 2. full query
+	win, tried := race(fname, timeoutS)
+	res.Tried = append(res.Tried, tried...)
+	res.Status = win.status
+	res.Solver = win.solver
+	res.Raw = win.out
+	if win.status == "sat" {
+		res.Model = parseValues(win.out, o)
+	}
+	if res.Status != "unsat" && res.Status != "sat" && redSat != nil {
+		res.Status = "sat"
+		res.Reduced = true
+		res.Solver = redSat.solver
+		res.Raw = redSat.out
+		res.Model = parseValues(redSat.out, o)
 	}
 	res.Seconds = time.Since(t0).Seconds()
 	if confirm && res.Status == "unsat" {
@@ -98,7 +167,7 @@ func Solve(o *Obligation, workDir string, timeoutS int, confirm bool) *SolveResu
 			if sv.name == res.Solver {
 				continue
 			}
-			st, _, _ := runSolver(sv, fname, timeoutS)
+			st, _, _ := runSolver(context.Background(), sv, fname, timeoutS)
 			if st == "unsat" {
 				res.Confirm = sv.name
 				break
@@ -115,15 +184,29 @@ func Solve(o *Obligation, workDir string, timeoutS int, confirm bool) *SolveResu
 	return res
 }
 
+func dropQuantified(q string) string {
+	var b strings.Builder
+	for _, l := range strings.Split(q, "\n") {
+		if strings.HasPrefix(l, "(assert") && (strings.Contains(l, "(forall ") || strings.Contains(l, "(exists ")) {
+			continue
+		}
+		b.WriteString(l)
+		b.WriteString("\n")
+	}
+	return b.String()
+}
+
 var keepQueries = false
 
 func sanitizeFile(s string) string {
 	r := strings.NewReplacer("/", "_", "\"", "", "[", "_", "]", "_", "*", "P", "(", "", ")", "", "$", "_", "#", "__", " ", "")
+	h := fnv.New32a()
+	h.Write([]byte(s))
 	s = r.Replace(s)
 	if len(s) > 150 {
 		s = s[:150]
 	}
-	return s
+	return fmt.Sprintf("%s.%08x", s, h.Sum32())
 }
 
 // parseValues reads the (get-value ...) answer: ((term value) (term value) ...)
